@@ -157,9 +157,9 @@ func (e *lcEnv) viol(key string, format string, a ...any) {
 
 // guarded runs fn with a watchdog and panic capture.
 func (e *lcEnv) guarded(step int, what string, fn func()) (ok bool, p any) {
-	ret, p := hx.Within(3*time.Second, fn)
+	ret, p := hx.Within(8*time.Second, fn)
 	if !ret {
-		e.viol("blocked:"+what, "step %d: %s did not return within 3 s", step, what)
+		e.viol("blocked:"+what, "step %d: %s did not return within 8 s", step, what)
 		return false, nil
 	}
 	return true, p
